@@ -370,4 +370,68 @@ def incBody (e : Inc) (a : Act) : Inc × Nat :=
 def Inc.fireAll (e : Inc) : Inc × List Nat :=
   incLoop incPop (fun _ _ => false) (fun e => e.ag.acts.length) incBody incBound e []
 
+/-! ### Engine histories: several `fire_all` calls on one `IncrementalEngine`, with inserts / updates / retracts / resets in
+between.  What survives a `fire_all` call is the agenda: pending activations (a call that stops at `max_iterations` leaves
+the rest of the agenda where it is), the fired-rule set, the focus.  Only `reset` (`reset_fired_flags`) forgets which
+no-loop rules have fired. -/
+
+/-- `IncrementalEngine::update` → `propagate_changes_for_type`; `false` = `Err` (unknown or retracted handle) -/
+def Inc.update (e : Inc) (h : Nat) (a b : Int) : Inc × Bool :=
+  if e.facts.any (·.1 == h) then
+    let facts := e.facts.map (fun f => if f.1 == h then (h, a, b) else f)
+    let r := incAddMatches false (enumFrom 0 e.rules) facts e.ag e.clock
+    ({ e with facts := facts, ag := r.1, clock := r.2 }, true)
+  else (e, false)
+
+/-- `IncrementalEngine::retract` → `propagate_changes_for_type` (explicit facts: empty TMS cascade) -/
+def Inc.retract (e : Inc) (h : Nat) : Inc × Bool :=
+  if e.facts.any (·.1 == h) then
+    let facts := e.facts.filter (fun f => f.1 != h)
+    let r := incAddMatches false (enumFrom 0 e.rules) facts e.ag e.clock
+    ({ e with facts := facts, ag := r.1, clock := r.2 }, true)
+  else (e, false)
+
+/-- `IncrementalEngine::reset` -/
+def Inc.reset (e : Inc) : Inc := { e with ag := e.ag.reset }
+
+/-- the tests of `fire_all` that `continue`: rule unknown, matched fact retracted, or (fix-C06) the matched fact's current
+contents no longer satisfy the rule -/
+def incStale (e : Inc) (a : Act) : Bool :=
+  match e.rules[a.rule]?, a.handle with
+  | some r, some h =>
+    (match e.facts.find? (·.1 == h) with
+     | some f => !cMatches r f
+     | none => true)
+  | _, _ => true
+
+/-- `fire_all` in a history: facts may have been updated or retracted since an activation was created -/
+def Inc.fireAllH (e : Inc) : Inc × List Nat :=
+  incLoop incPop incStale (fun e => e.ag.acts.length) incBody incBound e []
+
+inductive HOp where
+  | insert (a b : Int)
+  | update (h : Nat) (a b : Int)
+  | retract (h : Nat)
+  | fire
+  | reset
+deriving Repr, DecidableEq
+
+inductive HRes where
+  | handle (h : Nat)
+  | ok (b : Bool)
+  | fired (names : List Nat)
+  | unit
+deriving Repr, DecidableEq
+
+def Inc.hstep (e : Inc) : HOp → Inc × HRes
+  | .insert a b => (e.insert a b, .handle e.nextHandle)
+  | .update h a b => let r := e.update h a b; (r.1, .ok r.2)
+  | .retract h => let r := e.retract h; (r.1, .ok r.2)
+  | .fire => let r := e.fireAllH; (r.1, .fired r.2)
+  | .reset => (e.reset, .unit)
+
+def Inc.htrace (e : Inc) : List HOp → List HRes
+  | [] => []
+  | o :: os => (e.hstep o).2 :: Inc.htrace (e.hstep o).1 os
+
 end C07
